@@ -259,6 +259,7 @@ fn base_scenario(prop: &str, seed: u64) -> (Rng, Scenario) {
         ops: vec![],
         twin: Twin::None,
         sim_seconds: 0.0,
+        repeat: 0,
     };
     (rng, sc)
 }
@@ -266,7 +267,7 @@ fn base_scenario(prop: &str, seed: u64) -> (Rng, Scenario) {
 /// C03 / C04 / C09 share the "any valid history" workload.
 fn gen_valid_history(prop: &str, seed: u64, tier: Tier) -> Scenario {
     let (mut rng, mut sc) = base_scenario(prop, seed);
-    let mut dom = Dom { custom_kernels: true, zero_channels: true, ..Dom::default() };
+    let mut dom = Dom { custom_kernels: true, zero_channels: true, wild: true, ..Dom::default() };
     // swarm: a few percent of the runs leave the usual size range (large chunk, many channels) or run long
     let big = rng.chance(0.03);
     let long = !big && rng.chance(0.04);
@@ -290,9 +291,15 @@ fn gen_valid_history(prop: &str, seed: u64, tier: Tier) -> Scenario {
             m.resize(sc.config.channels, true);
         }
     }
+    sanitize(&mut sc.config);
     sc.signal = gen_signal(&mut rng);
+    if sc.config.channels >= 1 && rng.chance(0.02) {
+        // no panic whatever the sample values: one channel carries +-MAX, infinities and NaNs
+        sc.signal = Signal::Extreme { seed: rng.next(), last_ch: sc.config.channels - 1 };
+    }
     // directed extremes for the asynchronous kinds (exact-integer largest step, lowest ratio then highest)
-    if sc.config.kind.is_async() && rng.chance(0.04) {
+    let p_dir = std::env::var("RSIM_DIRECTED_P").ok().and_then(|s| s.parse::<f64>().ok()).unwrap_or(0.04);
+    if sc.config.kind.is_async() && rng.chance(p_dir) {
         let (cfg, ops) = gen_extreme_directed(&mut rng, sc.config.kind);
         sc.config = cfg;
         sc.ops = ops;
@@ -300,7 +307,7 @@ fn gen_valid_history(prop: &str, seed: u64, tier: Tier) -> Scenario {
         return sc;
     }
     // frame counts above 2^24 (f32 no longer exact): about 20 runs per quick batch, a few hundred per thorough one
-    let p_huge = std::env::var("RSIM_HUGE_P").ok().and_then(|s| s.parse::<f64>().ok()).unwrap_or(if tier == Tier::Quick { 1.7e-4 } else { 2.5e-4 });
+    let p_huge = std::env::var("RSIM_HUGE_P").ok().and_then(|s| s.parse::<f64>().ok()).unwrap_or(if tier == Tier::Quick { 4.0e-4 } else { 2.5e-4 });
     if rng.chance(p_huge) {
         sc.config = gen_huge_config(&mut rng);
         sc.signal = Signal::Const { v: 0.25 };
@@ -387,9 +394,17 @@ fn gen_c07_ultra(seed: u64, tier: Tier) -> Scenario {
         let d = 10f64.powf(-rng.uniform(6.0, 7.5)) * if rng.chance(0.5) { 1.0 } else { -1.0 };
         ops.push(Op::SetRatio { rel: 1.0 + d, ramp: rng.chance(0.6), relative_api: rng.chance(0.5) });
     }
-    for _ in 0..n {
+    if rng.chance(0.35) {
+        // millions of 1-3 frame chunks: errors made once per call (not per frame) need that many calls
+        sc.config.chunk = *rng.pick(&[1usize, 1, 2, 3]);
         ops.push(Op::process());
+        sc.repeat = if tier == Tier::Quick { 3_000_000 } else { 30_000_000 };
+        sc.ops = ops;
+        sc.profile = "ultra-long-tiny-chunks".into();
+        return sc;
     }
+    ops.push(Op::process());
+    sc.repeat = n.saturating_sub(1) as u64;
     sc.ops = ops;
     sc.profile = "ultra-long-near-resonant".into();
     sc
@@ -404,6 +419,7 @@ fn gen_c07(seed: u64, tier: Tier) -> Scenario {
     dom.ratio_changes = false;
     dom.masks = false;
     dom.edges = false;
+    dom.wild = true;
     // long 1-frame streams: cheap kernels
     let long = rng.chance(0.25);
     if long {
@@ -499,89 +515,164 @@ pub fn fft_blocks(cfg: &Config) -> (u64, u64) {
     (k * min_in, k * min_out)
 }
 
-fn eval_c07(sc: &Scenario) -> Outcome {
-    let (mut out, t) = eval_single(sc, &["C07"]);
-    let cfg = &sc.config;
-    let mut tin: u64 = 0;
-    let mut tout: u64 = 0;
-    let r = cfg.nominal_ratio();
-    let l = cfg.filter_len() as f64;
-    let bound = r * (l + 1.0 / r + 3.0) + 3.0;
-    let (blk_in, _blk_out) = fft_blocks(cfg);
-    let mut worst = 0.0f64;
-    let mut clean = true;
-    // after a ratio change the stream is again at a constant ratio once the (possibly ramped) next call is done:
-    // a new accounting segment starts there, with the bound doubled (both ends of the segment carry a filter state)
-    let mut r = r;
-    let mut bound = bound;
-    let mut settle = 0u32;
-    for s in &t.steps {
-        match (&sc.ops[s.op], &s.res) {
+/// C07 accounting, one step at a time (shared by the recorded and the streaming evaluation).
+struct Acct {
+    tin: u64,
+    tout: u64,
+    r: f64,
+    l: f64,
+    bound: f64,
+    blk_in: u64,
+    clean: bool,
+    settle: u32,
+    worst: f64,
+}
+
+impl Acct {
+    fn new(cfg: &Config) -> Acct {
+        let r = cfg.nominal_ratio();
+        let l = cfg.filter_len() as f64;
+        Acct { tin: 0, tout: 0, r, l, bound: r * (l + 1.0 / r + 3.0) + 3.0, blk_in: fft_blocks(cfg).0, clean: true, settle: 0, worst: 0.0 }
+    }
+    /// returns a violation (clause, detail) if the step breaks the accounting
+    fn on_step(&mut self, cfg: &Config, op: &Op, s: &StepRec) -> Option<(&'static str, String)> {
+        match (op, &s.res) {
             (Op::SetRatio { rel, relative_api, .. }, StepRes::CtlOk) => {
-                clean = false;
-                settle = 2;
+                // after a ratio change the stream is again at a constant ratio once the (possibly ramped) next call is
+                // done: a new segment starts there, bound doubled (both ends of the segment carry a filter state)
+                self.clean = false;
+                self.settle = 2;
                 let m = cfg.max_rel;
                 let v = if *relative_api { (cfg.ratio * *rel).max(cfg.ratio / m) } else { (cfg.ratio * *rel).clamp(cfg.ratio / m, cfg.ratio * m) };
-                r = v;
-                bound = 2.0 * (r * (l + 1.0 / r + 3.0) + 3.0) + 2.0;
+                self.r = v;
+                self.bound = 2.0 * (v * (self.l + 1.0 / v + 3.0) + 3.0) + 2.0;
             }
             (Op::Reset, StepRes::Reset) => {
-                clean = true;
-                settle = 0;
-                tin = 0;
-                tout = 0;
-                r = cfg.nominal_ratio();
-                bound = r * (l + 1.0 / r + 3.0) + 3.0;
+                self.clean = true;
+                self.settle = 0;
+                self.tin = 0;
+                self.tout = 0;
+                self.r = cfg.nominal_ratio();
+                self.bound = self.r * (self.l + 1.0 / self.r + 3.0) + 3.0;
             }
-            (Op::Process { .. }, StepRes::Proc { .. }) if !clean => {
-                if settle > 0 {
-                    settle -= 1;
+            (Op::Process { .. }, StepRes::Proc { .. }) if !self.clean => {
+                if self.settle > 0 {
+                    self.settle -= 1;
                 }
-                if settle == 0 {
-                    clean = true;
-                    tin = 0;
-                    tout = 0;
-                    continue;
+                if self.settle == 0 {
+                    self.clean = true;
+                    self.tin = 0;
+                    self.tout = 0;
+                    return None;
                 }
             }
             _ => {}
         }
-        if !clean {
-            continue;
+        if !self.clean {
+            return None;
         }
         if let StepRes::Proc { n_in, n_out } = s.res {
-            tin += n_in as u64;
-            tout += n_out as u64;
+            self.tin += n_in as u64;
+            self.tout += n_out as u64;
+            let (tin, tout, r) = (self.tin, self.tout, self.r);
             if cfg.kind.is_async() {
                 let d = (tout as f64 - r * tin as f64).abs();
-                worst = worst.max(d / bound);
-                if d > bound {
-                    out.push("C07", "async-drift-bound", s.op, format!("after {} in / {} out frames at ratio {}: |out - r*in| = {:.3} > bound {:.3}", tin, tout, r, d, bound));
-                    break;
+                self.worst = self.worst.max(d / self.bound);
+                if d > self.bound {
+                    return Some(("async-drift-bound", format!("after {} in / {} out frames at ratio {}: |out - r*in| = {:.3} > bound {:.3}", tin, tout, r, d, self.bound)));
                 }
             } else {
                 let a = tin as i128 * cfg.rate_out as i128;
                 let b = tout as i128 * cfg.rate_in as i128;
                 let d = a - b;
-                if d < 0 || d >= blk_in as i128 * cfg.rate_out as i128 {
-                    out.push("C07", "sync-within-one-block", s.op, format!("in {} out {} rates {}:{}: in*rate_out - out*rate_in = {} not in [0, {})", tin, tout, cfg.rate_in, cfg.rate_out, d, blk_in as i128 * cfg.rate_out as i128));
-                    break;
+                if d < 0 || d >= self.blk_in as i128 * cfg.rate_out as i128 {
+                    return Some(("sync-within-one-block", format!("in {} out {} rates {}:{}: in*rate_out - out*rate_in = {} not in [0, {})", tin, tout, cfg.rate_in, cfg.rate_out, d, self.blk_in as i128 * cfg.rate_out as i128)));
                 }
                 if cfg.kind == Kind::FftInOut {
                     if d != 0 {
-                        out.push("C07", "inout-exact", s.op, format!("FftFixedInOut in {} out {}: difference {}", tin, tout, d));
-                        break;
+                        return Some(("inout-exact", format!("FftFixedInOut in {} out {}: difference {}", tin, tout, d)));
                     }
-                    if n_in as u64 != blk_in {
-                        out.push("C07", "inout-smallest-block", s.op, format!("FftFixedInOut consumed {} per call, smallest admissible block for chunk {} rates {}:{} is {}", n_in, cfg.chunk, cfg.rate_in, cfg.rate_out, blk_in));
-                        break;
+                    if n_in as u64 != self.blk_in {
+                        return Some(("inout-smallest-block", format!("FftFixedInOut consumed {} per call, smallest admissible block for chunk {} rates {}:{} is {}", n_in, cfg.chunk, cfg.rate_in, cfg.rate_out, self.blk_in)));
                     }
                 }
             }
         }
+        None
+    }
+}
+
+fn eval_c07(sc: &Scenario) -> Outcome {
+    if sc.repeat > 0 {
+        return if sc.config.f32 { eval_c07_stream::<f32>(sc) } else { eval_c07_stream::<f64>(sc) };
+    }
+    let (mut out, t) = eval_single(sc, &["C07"]);
+    let cfg = &sc.config;
+    let mut acct = Acct::new(cfg);
+    for s in &t.steps {
+        if let Some((clause, detail)) = acct.on_step(cfg, &sc.ops[s.op], s) {
+            out.push("C07", clause, s.op, detail);
+            break;
+        }
     }
     out.cov.probe("calls_over_10000", (out.cov.calls > 10_000) as u64);
-    out.cov.probe("worst_drift_over_half_bound", (worst > 0.5) as u64);
+    out.cov.probe("worst_drift_over_half_bound", (acct.worst > 0.5) as u64);
+    out
+}
+
+/// Streaming evaluation: `ops` once, then the last op `repeat` more times; nothing is recorded but the running totals.
+fn eval_c07_stream<T: crate::sut::Flt>(sc: &Scenario) -> Outcome {
+    let mut out = Outcome::default();
+    let cfg = &sc.config;
+    let mut r = match Runner::<T>::new(cfg, &sc.signal, RunOpts { keep_output: false, ..Default::default() }) {
+        Ok(r) => r,
+        Err(e) => {
+            out.push("C07", "call-did-not-complete", 0, format!("construction failed: {}", e));
+            return out;
+        }
+    };
+    let mut acct = Acct::new(cfg);
+    let total = sc.ops.len() as u64 + sc.repeat;
+    let last = sc.ops.len().saturating_sub(1);
+    let mut calls = 0u64;
+    let mut digest = 0u64;
+    for k in 0..total {
+        let i = (k as usize).min(last);
+        let op = &sc.ops[i];
+        r.step(i, op);
+        if let Some((step, msg)) = &r.trace.died {
+            out.push("C07", "call-did-not-complete", *step, format!("call {} of the stream died: {}", k, msg));
+            break;
+        }
+        let rec = r.trace.steps.last().cloned();
+        if let Some(rec) = rec {
+            if matches!(rec.res, StepRes::Proc { .. }) {
+                calls += 1;
+            }
+            digest = mix(digest ^ rec.digest ^ (rec.post.in_next as u64) << 32);
+            if let Some((clause, detail)) = acct.on_step(cfg, op, &rec) {
+                out.push("C07", clause, i, format!("call {} of the stream: {}", k, detail));
+                break;
+            }
+        }
+        if r.trace.steps.len() >= 4096 {
+            r.trace.steps.clear();
+        }
+        if let Some(v) = r.trace.viol.iter().find(|v| v.prop == "C03" && (v.clause == "panic" || v.clause == "valid-call-returned-err")) {
+            out.push("C07", "call-did-not-complete", i, v.detail.clone());
+            break;
+        }
+    }
+    out.digest = mix(digest ^ r.trace.digest);
+    out.cov.executions = 1;
+    out.cov.ops = total;
+    out.cov.calls = calls;
+    out.cov.frames_in = r.trace.consumed;
+    out.cov.frames_out = r.trace.total_out;
+    out.cov.fault("F1_millions_of_small_chunks", (calls > 1_000_000) as u64);
+    out.cov.probe("calls_over_10000", (calls > 10_000) as u64);
+    out.cov.probe("calls_over_1000000", (calls > 1_000_000) as u64);
+    out.cov.probe("worst_drift_over_half_bound", (acct.worst > 0.5) as u64);
     out
 }
 
